@@ -172,6 +172,10 @@ func (t *Type) ParamName() string {
 
 // String returns a human-readable version of the Type.
 func (t *Type) String() string {
+	if t.ValueType == nil || (t.Name == "map" && t.KeyType == nil) {
+		// Not a container (or a container keyword without element types).
+		return t.Name
+	}
 	switch t.Name {
 	case "map":
 		return fmt.Sprintf("map<%s,%s>", t.KeyType.String(), t.ValueType.String())
@@ -1265,6 +1269,11 @@ func (f *Frugal) isValidType(typ *Type) bool {
 	if typ.IsPrimitive() {
 		return true
 	} else if typ.IsContainer() {
+		// A container keyword used as a plain type name ("1: list x") has no
+		// element types and isn't a type.
+		if typ.ValueType == nil || (typ.Name == "map" && typ.KeyType == nil) {
+			return false
+		}
 		switch typ.Name {
 		case "list", "set":
 			return f.isValidType(typ.ValueType)
